@@ -54,7 +54,7 @@ m = {
   "guard": "verif",
   "enable": "go build -tags verif (bin/check builds /verif/harness, whose go.mod replaces github.com/datastax/cql-proxy with /repo, so /repo's working tree is recompiled with the hooks on)",
   "baseline_off_cmd": "cd /repo && GOFLAGS=-mod=mod GOPROXY=off go test -json -vet=off -count=1 -timeout 25m ./...",
-  "source_commits": ["bcdd8c1", "233dc92", "a4a9b03"],
+  "source_commits": ["bcdd8c1", "233dc92", "a4a9b03", "98f4792"],
   "add_only": True,
  },
  "engines": [{"name": "verif", "path": "harness/cmd/verif", "serves_properties": sorted(checks), "kind_free_text": "Go harness: supervisor + worker child processes running the real proxy in-process (build tag verif) or as a subprocess against a scriptable fake Cassandra; offline checkers over recorded event histories"}],
